@@ -66,6 +66,64 @@ def cmp_bounds(body, block):
     return up, lo
 
 
+def lower_bounded_on_every_path(body, site_block, ids, budget=150000):
+    """Is the wire length (its reads: `ids`) bounded from below on every way to `site_block`? The comparison may be acted on where it is made, or its
+    answer may be kept first (`let bad = if tag == CLEAR { len != min } else { len < min }; if bad { return Err(..) }`): walked from the entry
+    under constant propagation, remembering for each kept answer on which of its two values the length is at least something."""
+    import collections as _c
+    kept, copies = _c.defaultdict(list), _c.defaultdict(list)
+    for i_, j_, p_, rv_, l_ in body.assigns():
+        if p_[1]:
+            continue
+        if rv_[0] == "bin" and rv_[1] in ("Lt", "Le", "Gt", "Ge", "Ne", "Eq"):
+            x_ids = set(id(c) for c in wire_reads(body, rv_[2]))
+            y_ids = set(id(c) for c in wire_reads(body, rv_[3]))
+            # value of the flag on which `length >= something` holds
+            if x_ids & ids and not (y_ids & ids):
+                good = {"Lt": 0, "Le": 0, "Ge": 1, "Gt": 1, "Ne": 0, "Eq": 1}[rv_[1]]
+            elif y_ids & ids and not (x_ids & ids):
+                good = {"Gt": 0, "Ge": 0, "Le": 1, "Lt": 1, "Ne": 0, "Eq": 1}[rv_[1]]
+            else:
+                continue
+            kept[i_].append((p_[0], good))
+        elif rv_[0] == "use" and rv_[1][0] in ("c", "m") and not rv_[1][1][1]:
+            copies[i_].append((p_[0], rv_[1][1][0]))
+    if not kept:
+        return False
+    seen_, work = set(), [(0, frozenset(), frozenset(), False)]
+    while work and budget > 0:
+        budget -= 1
+        blk, env, pend, have = work.pop()
+        if blk == site_block:
+            if not have:
+                return False
+            continue
+        key_ = (blk, env, pend, have)
+        if key_ in seen_:
+            continue
+        seen_.add(key_)
+        if blk in kept or (pend and blk in copies):
+            pd = dict(pend)
+            for loc_, g_ in kept.get(blk, ()):
+                pd[loc_] = g_
+            for dst_, src_ in copies.get(blk, ()):
+                if src_ in pd:
+                    pd[dst_] = pd[src_]
+                else:
+                    pd.pop(dst_, None)
+            pend = frozenset(pd.items())
+        t_ = body.term(blk)
+        dl = op_place(t_["discr"]) if t_["k"] == "switch" else None
+        for s_, e_ in body.cp_successors(blk, env):
+            h2 = have
+            if dl is not None and not dl[1] and dl[0] in dict(pend) and len(t_["arms"]) == 1 and int(t_["arms"][0][0]) == 0:
+                val = 0 if s_ == t_["arms"][0][1] else 1
+                if val == dict(pend)[dl[0]]:
+                    h2 = True
+            work.append((s_, e_, pend, h2))
+    return budget > 0
+
+
 def tainted(desc):
     return any(t in desc for t in TAINT)
 
@@ -334,7 +392,7 @@ def run(ctx):
                         pl = op_place(rv[2])
                         in_state = pl is not None and b.resolve(pl).root == 1
                         if k == 0 and not in_state:
-                            ok = any(ids <= s_ or ids & s_ for s_ in lo)
+                            ok = any(ids <= s_ or ids & s_ for s_ in lo) or lower_bounded_on_every_path(b, i, ids)
                             r.check(ok, "%s/sub/%s" % (tag, site), b.loc(line), "the wire length is only decreased after a lower bound was established",
                                     "`%s - %s` on a length read from the wire with no dominating lower bound: underflow panics (debug) or wraps (release)" % (_short(d), _short(other)))
                         continue
